@@ -26,6 +26,16 @@ def run(R):
             jobs.append(dict(cut=R.cut, tree=tree, argv=argv, strace={"trace": True}))
             first = next((stripped(names[k]) for k, ex in zip(("old", "new", "index"), pattern) if ex), None)
             meta.append((strip, pattern, first, "order"))
+    # /dev/null on one side and an Index: line: the Index name is a candidate like the others (svn-style removal / creation patches)
+    for strip in (0, 1):
+        for kind, old, new in (("removal", b"gone.c" if strip else b"x/gone.c", b"/dev/null"), ("creation", b"/dev/null", b"made.c" if strip else b"x/made.c")):
+            idx = b"proj/sub/real.c" if strip else b"real.c"
+            hs2 = gen.make_hunks(a, [], 3) if kind == "removal" else gen.make_hunks(a, b, 1)
+            text = b"Index: " + idx + b"\n" + emit.unified_text(hs2, old, new, b"", b"")
+            stripped_idx = b"sub/real.c" if strip else b"real.c"
+            tree = box.Tree({b"p.diff": ("f", text, 0o644), stripped_idx: ("f", A, 0o644)})
+            jobs.append(dict(cut=R.cut, tree=tree, argv=[b"-p%d" % strip, b"-i", b"p.diff"], strace={"trace": True}))
+            meta.append((strip, (kind,), stripped_idx, "index-with-devnull"))
     # too few components: -p3 with names of 3 components -> empty name, not used
     text = emit.unified_text(hs, b"a/b/old.c", b"x/new.c")
     tree = box.Tree({b"p.diff": ("f", text, 0o644), b"new.c": ("f", A, 0o644), b"old.c": ("f", A, 0o644)})
@@ -53,6 +63,10 @@ def run(R):
             changed = [p for p, v in r.after.items() if v[0] == "f" and p != b"p.diff" and r.before.get(p, (None, None))[1] != v[1]]
             if r.exit != 0 or changed != [first] or r.after[first][1] != B:
                 R.oracle_fail(f"with -p{strip} and existence pattern {pattern} the file patched is {changed}, expected {first!r} (first existing of old, new, Index)", data)
+        elif kind == "index-with-devnull":
+            changed = [p for p, v in r.before.items() if v[0] == "f" and p != b"p.diff" and (p not in r.after or r.after[p][1] != v[1])]
+            if r.exit == 2 or changed != [first]:
+                R.oracle_fail(f"{pattern[0]} patch with an Index: line naming the only existing file (-p{strip}): the Index name must be the file patched, got {changed} (exit {r.exit})", data)
         elif kind == "too-few":
             changed = [p for p, v in r.after.items() if v[0] == "f" and p != b"p.diff" and r.before[p][1] != v[1]]
             if changed != [b"old.c"]:
